@@ -52,8 +52,12 @@ def frame_spec(draw, fmt):
             cols.append(np.array(draw(st.lists(st.sampled_from([0.5, -1.25, 3.0, 1e10, 2.75]), min_size=n, max_size=n))))
         else:
             cols.append(draw(gen.column(k, n, missing=False)))
-    idepth = draw(st.sampled_from([1, 1, 2])) if fmt != 'sqlite' else 1
-    if idepth == 1:
+    idepth = draw(st.sampled_from([1, 0, 1, 2])) if fmt != 'sqlite' else draw(st.sampled_from([1, 0, 1]))
+    if idepth == 0 and m < 2 and fmt in ('zip_csv', 'zip_tsv'):
+        idepth = 1  # single-column delimited text is a listed C16 finding
+    if idepth == 0:
+        idx = list(range(n))  # an auto index that is not stored (include_index=False for this label only)
+    elif idepth == 1:
         idx = draw(gen.flat_labels(n, draw(st.sampled_from(['int', 'str']))))
     else:
         idx = draw(gen.tree_labels_n(n, depth=2))
@@ -77,7 +81,7 @@ def cases(max_steps):
         # the history and the options first, the frame contents last (late draws are pinned to their minimal choice
         # for a share of Hypothesis's examples)
         fmt = draw(st.sampled_from(FORMATS))
-        label_kind = draw(st.sampled_from(['str', 'int', 'tuple', 'str'])) if fmt.startswith('zip') else 'str'
+        label_kind = draw(st.sampled_from(['str', 'int', 'tuple', 'str']))
         k = draw(st.sampled_from([4, 3, 5, 2, 1]))
         mp = draw(st.sampled_from([x for x in (2, 3, None, 1, 4, 5) if x is None or x <= k]))
         workers = draw(st.sampled_from([None, 2, None]))
@@ -99,7 +103,7 @@ def _label_dec(s):
 
 
 def _mk_frame(spec, name):
-    idx = sf.Index(spec['index']) if spec['idepth'] == 1 else sf.IndexHierarchy.from_labels(spec['index'])
+    idx = None if spec['idepth'] == 0 else (sf.Index(spec['index']) if spec['idepth'] == 1 else sf.IndexHierarchy.from_labels(spec['index']))
     return sf.Frame.from_items(zip(spec['columns'], spec['cols']), index=idx, name=name)
 
 
@@ -174,7 +178,7 @@ def _check(case, tmp):
         wkw = dict(read_max_workers=case['workers'], write_max_workers=case['workers'])
     if lk != 'str':
         wkw.update(label_encoder=_label_enc, label_decoder=_label_dec)
-    config = sf.StoreConfigMap({nm: sf.StoreConfig(index_depth=spec['idepth'], columns_depth=1, include_index=True, include_columns=True, **wkw)
+    config = sf.StoreConfigMap({nm: sf.StoreConfig(index_depth=spec['idepth'], columns_depth=1, include_index=spec['idepth'] > 0, include_columns=True, **wkw)
                                 for spec, nm in zip(case['frames'], names)}, default=sf.StoreConfig(**wkw))
     src = sf.Bus.from_frames(written)
     w = lib(lambda: getattr(src, WRITERS[fmt])(fp, config=config))
